@@ -129,3 +129,16 @@ def is_complex_case(rhos) -> bool:
 def solver_failure(exc: BaseException) -> bool:
     """picos SolutionFailure, or an arithmetic break-down inside CVXOPT (documented in state_exclusion's docstring)."""
     return type(exc).__name__ == "SolutionFailure" or isinstance(exc, ArithmeticError)
+
+
+def solver_kwargs(strategy: str, pd: str) -> dict:
+    """picos options passed through toqito's documented ``**kwargs``.
+
+    Dual forms are called exactly as the library's own predicates call them (no options).  Primal forms carry equality
+    constraints which picos hands to CVXOPT with redundant rows; with CVXOPT's default KKT solver this either raises
+    ZeroDivisionError / ArithmeticError or iterates for minutes (observed: 512 s on a two-state qubit ensemble) before
+    converging.  state_exclusion's docstring names ``cvxopt_kktsolver="ldl"`` as the remedy and toqito's own tests pass
+    it, so the harness does too; the iteration cap turns any remaining stall into a SolutionFailure (= indeterminate)."""
+    if pd == "primal":
+        return {"cvxopt_kktsolver": "ldl", "max_iterations": 2000}
+    return {}
